@@ -179,9 +179,22 @@ static void caseNeigh(Rng& r, Ctx& c)
   DbSpec A;
   A.pts = genPoints(r, ndim, n, L, origin, (int)(r.next() % 3), 1e-3);
   int het = (int)(r.next() % 3); // 0 none, 1 random cells, 2 whole samples undefined
-  genValues(r, A, nvar, het, L);
+  genValues(r, A, nvar, het == 2 ? 0 : het, L);
+  if (het == 2)
+  {
+    // a few samples undefined for every variable (kept sparse so that the precondition still holds for many targets)
+    double p = r.uni(0.03, 0.12);
+    for (int i = 0; i < n; i++)
+      if (r.coin(p))
+        for (int v = 0; v < nvar; v++) A.z[v][i] = UNDEF;
+  }
   int selA = r.coin(0.4) ? 1 : 0;
-  genSel(r, A, selA);
+  if (selA)
+  {
+    double p = r.uni(0.03, 0.15); // sparse mask, same reason
+    A.sel.assign(n, 1.0);
+    for (auto& v : A.sel) v = r.coin(p) ? 0.0 : 1.0;
+  }
   int m = 3 + (int)(r.next() % 8);
   DbSpec T;
   T.pts  = genPoints(r, ndim, m, L, origin, 0, 1e-3, &A.pts);
@@ -200,7 +213,7 @@ static void caseNeigh(Rng& r, Ctx& c)
   int nmaxi     = 1 + (int)(r.next() % std::min(n, 16));
   int nmini     = 1;
   bool radiusOn = r.coin(0.5);
-  double radius = radiusOn ? L * r.loguni(0.2, 1.5) : UNDEF;
+  double radius = radiusOn ? L * r.loguni(0.35, 1.5) : UNDEF;
   bool coeffs   = r.coin(0.6);
   if (AVOID_NEIGHMOVING_NDIM2_1D && ndim == 1) coeffs = true;
   int leaf = 1 + (int)(r.next() % 15);
